@@ -42,8 +42,9 @@ pub enum Fault {
     MultiBit(Vec<usize>),
     /// a block (or, with len 0, the whole artefact) reads back as a memory-test pattern instead of its
     /// data: kind 0 = 0xAA, 1 = 0x55, 2 = address-in-data (each byte is the low byte of its own offset,
-    /// as an LBA-stamped or never-initialised sector returns), 3 = a ramp starting at 0 in the block
-    Pattern { kind: u8, off: usize, len: usize },
+    /// as an LBA-stamped or never-initialised sector returns), 3 = a ramp starting at 0 in the block,
+    /// 4 + b = the constant byte b (a stuck data bus; generalises the all-0x00 / all-0xFF lost write)
+    Pattern { kind: u16, off: usize, len: usize },
 }
 
 impl Fault {
@@ -55,6 +56,7 @@ impl Fault {
             Fault::Torn(_) => "torn_write",
             Fault::MultiBit(_) => "multi_bit_rot",
             Fault::Pattern { kind: 2, .. } | Fault::Pattern { kind: 3, .. } => "address_pattern",
+            Fault::Pattern { kind, .. } if *kind >= 4 => "constant_byte_fill",
             Fault::Pattern { .. } => "checkerboard_pattern",
         }
     }
@@ -74,7 +76,7 @@ impl Fault {
             "stuck_byte" => Fault::Stuck(v["byte"].as_u64()? as usize, v["value"].as_u64()? as u8),
             "lost_write" => Fault::Lost(v["value"].as_u64()? as u8),
             "torn_write" => Fault::Torn(v["n"].as_u64()? as usize),
-            "pattern" => Fault::Pattern { kind: v["pattern"].as_u64()? as u8, off: v["offset"].as_u64()? as usize, len: v["len"].as_u64()? as usize },
+            "pattern" => Fault::Pattern { kind: v["pattern"].as_u64()? as u16, off: v["offset"].as_u64()? as usize, len: v["len"].as_u64()? as usize },
             "multi_bit_rot" => Fault::MultiBit(v["bits"].as_array()?.iter().map(|b| b.as_u64().map(|x| x as usize)).collect::<Option<Vec<_>>>()?),
             _ => return None,
         })
@@ -103,11 +105,12 @@ impl Fault {
             Fault::Pattern { kind, off, len } => {
                 let (lo, hi) = if *len == 0 { (0, n) } else { (off % n, ((off % n) + len).min(n)) };
                 for i in lo..hi {
-                    x[i] = match kind % 4 {
+                    x[i] = match *kind {
                         0 => 0xAA,
                         1 => 0x55,
                         2 => i as u8,
-                        _ => (i - lo) as u8,
+                        3 => (i - lo) as u8,
+                        k => (k - 4) as u8,
                     };
                 }
             }
@@ -703,11 +706,11 @@ fn gen_fault(p: &mut Prng, len: usize, region_bias: Option<(usize, usize)>) -> F
     };
     match p.below(11) {
         10 => {
-            let kind = p.below(4) as u8;
+            let kind = if p.chance(1, 2) { p.below(4) as u16 } else { 4 + *p.pick(&[0x44u16, 0x22, 0x11, 0x88, 0x33, 0xCC, 0x0F, 0xF0, 0x01, 0x80, 0x7F, 0xFE]) };
             if p.chance(1, 2) {
                 Fault::Pattern { kind, off: 0, len: 0 }
             } else {
-                let len = *p.pick(&[32usize, 64, 128, 512]);
+                let len = *p.pick(&[32usize, 64, 96, 128, 416, 512]);
                 Fault::Pattern { kind, off: (pos(p) / len) * len, len }
             }
         }
@@ -816,7 +819,14 @@ pub fn gen_short_history(p: &mut Prng, set: &dyn DynSet) -> Vec<Op> {
         Op::SkToBytes { src: 1 },
     ];
     if p.chance(1, 2) {
-        ops.push(Op::SkReload { src: 0, fault: Some(gen_fault(p, info.sk_len, Some((128, info.sk_len)))) });
+        let fault = if info.eta == 4 && p.chance(1, 4) {
+            // a stuck data bus over exactly one secret polynomial's block: every 4-bit field reads 4,
+            // i.e. the polynomial decodes to all-zero (eta = 4 only: 3-bit fields are not byte-periodic)
+            Fault::Pattern { kind: 4 + 0x44, off: 128 + 128 * p.usize_below(info.k + info.l), len: 128 }
+        } else {
+            gen_fault(p, info.sk_len, Some((128, info.sk_len)))
+        };
+        ops.push(Op::SkReload { src: 0, fault: Some(fault) });
         ops.push(Op::SkToBytes { src: 2 });
         ops.push(Op::PkDerive { src: 2 });
     } else {
